@@ -16,6 +16,7 @@ type Replica struct {
 	Seed    uint64            `json:"seed,omitempty"`
 	Rot     int               `json:"rot,omitempty"`
 	PerSite map[string]string `json:"persite,omitempty"` // site name -> mode
+	History bool              `json:"history,omitempty"` // run a prelude in the same process first: an older version of the tree loaded and rendered, failing renders, string evaluations
 	Clock   int64             `json:"clock"`             // unix seconds of the simulated clock base
 	Rand    int64             `json:"rand"`              // seed of the simulated global math/rand stream
 }
@@ -47,6 +48,7 @@ type Scenario struct {
 	FSFaults []FSFault       `json:"fsfaults,omitempty"`
 	Parts    []string        `json:"parts,omitempty"` // string scenarios: top-level pieces of Ops[0].Src
 	C18      *C18Expect      `json:"c18,omitempty"`
+	Prior    []*Scenario     `json:"prior,omitempty"` // C17 chained cells: executed first, in the same process, without reset
 	Note     string          `json:"note,omitempty"`
 	Extra    map[string]any  `json:"extra,omitempty"`
 }
